@@ -23,6 +23,22 @@ async def _await(f, args):
     return await f(*args)
 
 
+class AppPool(B.Pool):
+    """The APPLICATION's executor: a ThreadPoolExecutor for asyncio's type check, but not instrumented (the real constructor and
+    the real submit are used); it counts what is handed to it."""
+
+    def __init__(self, n):
+        B._RealPool.__init__(self, n, thread_name_prefix="app-pool")
+        self.items = 0
+
+    def submit(self, fn, /, *a, **k):
+        self.items += 1
+        return B._RealPool.submit(self, fn, *a, **k)
+
+    def shutdown(self, wait=True, *, cancel_futures=False):
+        return B._RealPool.shutdown(self, wait=wait, cancel_futures=cancel_futures)
+
+
 def _invoke(d, sp, a):
     if sp["is_async"]:
         return asyncio.run(_await(d, a))
@@ -230,7 +246,26 @@ def loops_case(col, pid, rng, cidx, jobref):
 
     sp = sched.gen_shape(rng, nmin=2, nmax=7, mc_max=3, mix=rng.choice(["async", "async_main", "mixed"]))
     sp["is_async"] = True
-    d, _e, plain = S.build_tawazi(sp)
+    # a STRAGGLER: while `hold` is on, the first pooled node function that returns stays in its worker thread until the gate opens
+    # (a node that simply takes long) - used for the await that is cancelled in flight
+    hold = {"on": False, "in": threading.Event(), "gate": threading.Event(), "taken": False}
+    base = {name: probes.mkprobe(name, shape=tuple(fs["shape"]) if fs.get("shape") else None) for name, fs in sp["fns"].items()}
+
+    def straggling(fn, is_async_thread):
+        def body(*a, **k):
+            r = fn(*a, **k)
+            # (only async-thread nodes: the scheduler waits for thread-resource nodes with a blocking call - documented)
+            if hold["on"] and is_async_thread and not hold["taken"] and threading.current_thread().name.startswith("twz") and not getattr(B.TLS, "ref", False):
+                hold["taken"] = True
+                hold["in"].set()
+                hold["gate"].wait(40)
+            return r
+
+        body.__name__ = body.__qualname__ = fn.__name__
+        body.__module__ = fn.__module__
+        return body
+
+    d, _e, plain = S.build_tawazi(sp, plain={n_: straggling(f_, sp["fns"][n_].get("resource") == "async-thread") for n_, f_ in base.items()})
     rp = {"kind": "rerun_job", "job": dict(jobref, n_cases=cidx + 1), "scenario": "event_loops", "source": S.render(sp)}
     B.reset_log()
     probes.reset_counts()
@@ -253,24 +288,67 @@ def loops_case(col, pid, rng, cidx, jobref):
         record("await_in_second_loop", a2, lambda: asyncio.run(_await(d, a2)))
 
         async def small_pool():
-            asyncio.get_running_loop().set_default_executor(ThreadPoolExecutor(1))
+            asyncio.get_running_loop().set_default_executor(AppPool(1))
             return await d(*a3)
 
         record("await_in_loop_with_one_worker_default_executor", a3, lambda: asyncio.run(small_pool()))
+        # the loop's default executor belongs to the application: one worker, and that one is BUSY with a job of the application for
+        # as long as the await lasts.  An execution that hands any of its work to that executor waits for the application.
+        busy = {}
+        a6 = [Sym("arg", "loop", cidx, 6)]
+
+        async def busy_pool():
+            loop = asyncio.get_running_loop()
+            app = AppPool(1)
+            loop.set_default_executor(app)
+            gate = threading.Event()
+            own = loop.run_in_executor(None, gate.wait, 30)
+            try:
+                return await asyncio.wait_for(d(*a6), 8)
+            finally:
+                busy["foreign_items"] = app.items - 1
+                gate.set()
+                await own
+
+        record("await_in_loop_whose_default_executor_is_busy", a6, lambda: asyncio.run(busy_pool()))
+        col.counters["env_awaits_next_to_a_busy_default_executor"] += 1
+        if busy.get("foreign_items"):
+            seq.pop()  # (judged here, by what was handed over - not by the time-out it leads to)
+            col.violation(pid, "execution_handed_work_to_the_event_loops_default_executor", dict(
+                items=busy["foreign_items"], note="the application's executor may be small, busy or inline: the scheduler then idles, "
+                "starts nodes in the executor's order, or runs them on the loop thread", source=S.render(sp)), rp)
+        elif seq[-1][3][0] == "exc" and isinstance(seq[-1][3][1], (asyncio.TimeoutError, TimeoutError)):
+            seq.pop()
+            col.soft_inconclusive.append("await next to a busy default executor timed out although nothing was handed to that executor")
         cancelled = {}
         delay = rng.choice([0.0, 0.001, 0.004, 0.01])
 
+        with_straggler = rng.random() < 0.5
+
         async def cancel_then_again():
+            hold["on"] = with_straggler
             t = asyncio.ensure_future(d(*a4))
-            await asyncio.sleep(delay)
+            if with_straggler:
+                for _ in range(3000):  # (until a pooled node of that execution is inside its function, at most 3 s)
+                    if hold["in"].is_set() or t.done():
+                        break
+                    await asyncio.sleep(0.001)
+            else:
+                await asyncio.sleep(delay)
             t.cancel()
+            hold["on"] = False
             cancelled["marker"] = B.ev("CANCEL_SENT")
             try:
                 await t
                 cancelled["finished"] = True
             except asyncio.CancelledError:
                 cancelled["cancelled"] = True
-            return await d(*a5)
+            try:
+                # the straggler of the cancelled execution is still in its thread: the next await does not depend on it
+                return await asyncio.wait_for(d(*a5), 20)
+            finally:
+                cancelled["straggler_in_flight_during_the_next_await"] = hold["in"].is_set()
+                hold["gate"].set()
 
         # (the cancelled await owns an execution token as well: it is not a recorded call, its successor is)
         B.new_epoch()
@@ -278,6 +356,8 @@ def loops_case(col, pid, rng, cidx, jobref):
         r5 = probes.run_op("await_after_a_cancelled_await_in_the_same_loop", lambda: asyncio.run(cancel_then_again()))
         seq.append(("await_after_a_cancelled_await_in_the_same_loop", a5, ref5, r5))
         col.counters["env_cancelled_awaits:%s" % ("cancelled_in_flight" if cancelled.get("cancelled") else "finished_before_the_cancel")] += 1
+        if cancelled.get("straggler_in_flight_during_the_next_await"):
+            col.counters["env_awaits_made_while_a_node_of_a_cancelled_await_was_still_running"] += 1
     finally:
         B.Settings.stress_sleep = 0.0
     log = B.snapshot()
